@@ -6,6 +6,7 @@ import (
 	"encoding/json"
 	"errors"
 	"fmt"
+	"os"
 	"sort"
 	"strings"
 	"syscall"
@@ -432,7 +433,12 @@ func faultSig(kind string, c caseDesc) string {
 	case pl != nil && pl.Implied:
 		pc = "implied-check"
 	}
-	return fmt.Sprintf("%s:%s:form=%s:%s:%s", c.Engine, kind, c.Form, msb, pc)
+	ip := pagesClass(uint64(c.Pages))
+	if c.Pages == 0 {
+		ip = "0"
+	}
+	// engine:fault:mem=<kind>:initial-pages=<class>:<placement>:form=<form>:<base class>:<check class>
+	return fmt.Sprintf("%s:%s:mem=%s:initial-pages=%s:%s:form=%s:%s:%s", c.Engine, kind, c.Mem, ip, c.Placement, c.Form, msb, pc)
 }
 
 // ---------------------------------------------------------------- running one item
@@ -442,8 +448,36 @@ var (
 	defV2 = uint64(0xF0E1D2C3B4A59687)
 )
 
-func runItem(b *batch, from int, prog *progress, itemIdx int, touchEvery int) *itemResult {
+// partialResult is the checkpoint a child leaves behind for the supervisor (see runItem).
+type partialResult struct {
+	Item int         `json:"item"`
+	Next int         `json:"next"` // first case not covered by Res
+	Res  *itemResult `json:"res"`
+}
+
+// runItem executes the cases of a batch from sequence number `from`, except those in skip. When partialPath is set
+// the cumulative result is checkpointed there (every 512 cases and after every recorded violation), so that a crash
+// loses neither verdicts nor counts: the supervisor merges the checkpoint and re-runs from its Next.
+func runItem(b *batch, from int, skip []int, prog *progress, itemIdx int, touchEvery int, partialPath string) *itemResult {
 	res := &itemResult{Out: map[string]int64{}}
+	skipSet := map[int]bool{}
+	for _, s := range skip {
+		skipSet[s] = true
+	}
+	lastFlushViol := int64(0)
+	checkpoint := func(next int) {
+		if partialPath == "" {
+			return
+		}
+		tmp := partialPath + ".tmp"
+		if err := os.WriteFile(tmp, []byte(mustJSON(partialResult{Item: itemIdx, Next: next, Res: res})), 0o600); err != nil {
+			harnessDie("checkpoint: %v", err)
+		}
+		if err := os.Rename(tmp, partialPath); err != nil {
+			harnessDie("checkpoint: %v", err)
+		}
+	}
+	checkpoint(from)
 	specs := b.specs()
 	cases := b.cases(specs)
 	if len(cases) == 0 || from >= len(cases) {
@@ -515,7 +549,20 @@ func runItem(b *batch, from int, prog *progress, itemIdx int, touchEvery int) *i
 		}
 		sinceTouch, firstSinceTouch = 0, -1
 	}
+	sinceFlush := 0
 	for _, c := range cases[from:] {
+		// checkpoint only at points where nothing is pending (the page-table guard of large memories has just run)
+		var nviol int64
+		for _, n := range res.SigCount {
+			nviol += n
+		}
+		if sinceFlush++; (sinceFlush >= 512 || (nviol != lastFlushViol && nviol <= 64)) && sinceTouch == 0 {
+			checkpoint(c.seq)
+			sinceFlush, lastFlushViol = 0, nviol
+		}
+		if skipSet[c.seq] {
+			continue
+		}
 		s := c.spec
 		in.reset()
 		d := b.desc(c)
